@@ -33,6 +33,38 @@ from ..report import Report
 LIVE_ATTRS = ("_ufl_all_classes_", "_ufl_num_typecodes_", "_ufl_all_handler_names_")
 
 
+LIFETIME_POSITIVE = '''
+from functools import cache
+
+from ufl.corealg.multifunction import MultiFunction
+
+
+class Rules(MultiFunction):
+    def expr(self, o, *ops):
+        return o
+
+
+AT_IMPORT = Rules()
+_rules = None
+
+
+@cache
+def rules():
+    return Rules()
+
+
+def lazy_rules():
+    global _rules
+    if _rules is None:
+        _rules = Rules()
+    return _rules
+
+
+def fine(e):
+    return Rules()(e)
+'''
+
+
 def is_live_registry_expr(prog, mod, e) -> bool:
     """Expr._ufl_all_classes_ / UFLType._ufl_num_typecodes_ (attribute read at run time)."""
     if isinstance(e, ast.Attribute) and e.attr in LIVE_ATTRS:
@@ -236,6 +268,54 @@ def run(ctx) -> Report:
                 rep.ok("C20-sd", p, f"{c.name}.process is a singledispatchmethod")
             else:
                 rep.violation("C20-sd", p, f"{c.name}.process", f"{c.name} redefines process without singledispatchmethod")
+    # ---- lifetime of algorithm objects: their typecode tables are bound in __init__, so an instance is only valid for the
+    # registry it was built against.  An instance kept beyond one call (module-level object, memoised factory, lazily filled
+    # module global or class attribute) goes stale when a type is registered later.
+    algs = {c.qualname for cs in ctx.disp.algorithm_classes().values() for c in cs if not c.is_subclass_of("DAGTraverser")}
+    algs |= {"ufl.corealg.multifunction.MultiFunction", "ufl.algorithms.transformer.Transformer"}
+
+    def is_alg_instance(mod, e, depth=0):
+        if isinstance(e, ast.Call):
+            k = prog.resolve_expr(mod, e.func)
+            return isinstance(k, ClassInfo) and (k.qualname in algs or k.is_subclass_of("MultiFunction") or k.is_subclass_of("Transformer")) and not k.is_subclass_of("DAGTraverser")
+        return False
+
+    def scan_lifetime(mod, report):
+        n = 0
+        for st in mod.tree.body:
+            if isinstance(st, (ast.Assign, ast.AnnAssign)) and st.value is not None and is_alg_instance(mod, st.value):
+                report((mod, st.lineno, "<module>"), norm(st), f"{mod.name}: an algorithm object is created at import time (`{norm(st)[:80]}`): its handler table is bound to the types registered so far")
+        for fi in list(mod.functions.values()) + [f for c in mod.classes.values() for f in c.all_defs]:
+            decos = [norm(d.func if isinstance(d, ast.Call) else d) for d in fi.node.decorator_list]
+            memoised = any(d.split(".")[-1] in ("cache", "lru_cache", "cached_property") for d in decos)
+            rets = [n_ for n_ in ast.walk(fi.node) if isinstance(n_, ast.Return) and n_.value is not None]
+            n += 1
+            if memoised and any(is_alg_instance(mod, r.value) for r in rets):
+                report(fi, f"@{'/'.join(decos)} {fi.qualname}", f"{fi.qualname} memoises an algorithm object ({norm(rets[0].value)}): one instance, with the handler table of the moment of its creation, serves all later calls - a type registered afterwards has no entry in it")
+            # lazily filled module global / class attribute holding an algorithm object
+            for a_ in ast.walk(fi.node):
+                if isinstance(a_, ast.Assign) and is_alg_instance(mod, a_.value):
+                    for t in a_.targets:
+                        glob = isinstance(t, ast.Name) and any(isinstance(g, ast.Global) and t.id in g.names for g in ast.walk(fi.node))
+                        clsattr = isinstance(t, ast.Attribute) and isinstance(prog.resolve_expr(mod, t.value), ClassInfo)
+                        if glob or clsattr:
+                            report((fi, a_), norm(a_), f"{fi.qualname} stores an algorithm object in {'a module global' if glob else 'a class attribute'} (`{norm(a_)[:80]}`): it outlives the registry state it was built for")
+        return n
+
+    # positive control: the three lifetimes must be recognised on every run
+    pname = "verif_c20_lifetime_positive"
+    if pname not in prog.modules:
+        prog.add_virtual_module(pname, LIFETIME_POSITIVE)
+    flagged = []
+    scan_lifetime(prog.module(pname), lambda where, construct, why: flagged.append(construct))
+    if len(flagged) != 3:
+        raise AnalysisError(f"C20-live positive control: {len(flagged)} of 3 algorithm-object lifetimes recognised ({flagged})")
+    n_life = 0
+    for mod in prog.modules.values():
+        if getattr(mod, "path", "").startswith("<"):
+            continue
+        n_life += scan_lifetime(mod, lambda where, construct, why: rep.violation("C20-live", where, construct, why))
+    rep.ok("C20-live", "ufl", f"{n_life} functions and all module bodies scanned: no algorithm object (MultiFunction / Transformer instance) is created at import time, memoised by a cached factory or parked in a global")
     # ---- late registration interpreted: MultiFunction / Transformer __init__ in a model registry that grows ----
     from .c19_dispatch import run_dispatch
 
